@@ -273,7 +273,7 @@ def handlers(rng, te, cfg):
 
 
 INJECT = ('take_physical_irq_exception', 'take_physical_fiq_exception', 'send_event_local')
-SCENARIOS = ('mix', 'mix', 'rwr', 'rwr', 'rwr', 'residue', 'monitor', 'trap', 'interwork', 'return', 'embedder', 'embedder', 'notimpl')
+SCENARIOS = ('mix', 'mix', 'rwr', 'rwr', 'rwr', 'residue', 'monitor', 'trap', 'interwork', 'return', 'embedder', 'embedder', 'notimpl', 'monitor')
 
 
 class Asm:
